@@ -259,7 +259,7 @@ func init() {
 		core.RunLeg(c, core.Leg[engCase]{
 			Name: "H", Kind: "oracle(facts-at-matches)",
 			Rule: "patterns and inputs as C03 leg N; for every attempt position p of every input (0..len) the single-position attempt hook is run; at each position where it matches, every published fact is evaluated on the input: MinRequiredLength, MaxPossibleLength, LeadingAnchor, TrailingAnchor, LeadingPrefix (plain, OrdinalIgnoreCase, right-to-left), LeadingPrefixes, FixedDistanceChar/String, FixedDistanceSets (set, Chars, Range, Negated), LiteralAfterLoop, LeadingChar/LeadingSet right-to-left, FcPrefix (with its case flag), the Anchors bit mask; required-landmark chains and the Boyer-Moore tables are covered through C03 (find = naive scan) only. non-trivial = the input has at least one real match; histogram lists which facts were evaluated",
-			N: c.N(8000, 300000), Gen: g.next, Check: c04Check, Batch: 4000,
+			N: c.N(8000, 300000), Corpus: engCorpus, Gen: g.next, Check: c04Check, Batch: 4000,
 		})
 	})
 }
